@@ -5,7 +5,10 @@
 package fsched
 
 import (
+	"os"
 	"path/filepath"
+	"strconv"
+	"strings"
 	"syscall"
 
 	"verif/sched"
@@ -22,6 +25,9 @@ var EINTROnce bool
 
 var eintrUsed bool
 
+// a file name that holds this process's id differs from run to run
+var pid = strconv.Itoa(os.Getpid())
+
 // Install hooks the shim for the current execution. Call at the start of every
 // execution body.
 func Install() {
@@ -31,7 +37,7 @@ func Install() {
 		if !sched.Active() || Invisible[op.Kind] {
 			return vos.Verdict{}
 		}
-		sched.Point(sched.Op{Kind: op.Kind, Obj: filepath.Base(op.Path)})
+		sched.Point(sched.Op{Kind: op.Kind, Obj: strings.ReplaceAll(filepath.Base(op.Path), pid, "<pid>")})
 		return vos.Verdict{}
 	}
 	vos.FlockHook = func(fd int, how int) error {
